@@ -15,7 +15,7 @@ from harness.props.c09 import H, U, cm3, cv3, rand_rot, rot_from_quat
 ID = "C01"
 IMPORTS = "From Evo Require Import Num Linalg Lie Metrics.\n"
 COQ_TARGETS = ["theories/MetricsProofs.vo", "generated/StepsC01.vo", "theories/MetricsTie.vo", "generated/LieGen.vo", "generated/MetricsGen.vo"]
-TRUSTED = ["model Evo.Metrics written by hand from APE.process_data; tie = differential run in binary64 (tolerances below)",
+TRUSTED = ["model Evo.Metrics written by hand from APE.process_data; ties: (T) harness/pyast_metrics.py re-translates APE.ape_base and the error construction + per-relation reduction of APE.process_data (and harness/pyast_np.py the lie_algebra helpers) from the current source on every run; Evo.MetricsTie proves the translated per-pair value equal to the model's ape_pair for every number system and angle oracle; (H) differential run in binary64 (tolerances below), with an independent numpy evaluation of the definition deciding whether a disagreement is a violation",
            "scipy's rotation-angle extraction is an oracle: compared through cos(angle) = (tr E - 1)/2 and sin(angle) = |vee(E - E^T)|/2",
            "CLI clause: the processed trajectories are produced by evo's own components (each tied to its model by C04/C05/C11/C14), "
            "orchestrated independently by the harness in the documented order; the order/wiring inside main_ape.ape/run and "
@@ -607,4 +607,4 @@ LEVEL_TEXT = ("Coq theorems over R for the APE model: refusal of unequal lengths
               "documented order.")
 LEVEL_NOTE = ("Trusted: Coq kernel/VM, Reals axioms + classic, hand model (tested correspondence), scipy angle extraction as oracle, "
               "evo's processing components (own properties), the AST step extractor; float rounding measured (tolerances), not proved.")
-TECHNIQUE = "Coq proof (SE(3) algebra on records, list induction) + correspondence by vm_compute + AST step-order obligation"
+TECHNIQUE = "Coq proof (SE(3) algebra on records, list induction) + Python-AST translator of the metric kernels with translated = model proved + correspondence by vm_compute + AST step-order obligation"
